@@ -1,6 +1,6 @@
 (* C09 - zero-weight sources never influence a fit; weights reach the right sources *)
 From Coq Require Import QArith List Bool Arith.
-From TW Require Import GJModel LSQ Rscale Shift Weights LinearFit ZeroWeight.
+From TW Require Import GJModel LSQ Rscale Shift Weights LinearFit ZeroWeight ZeroWeightSim Unique.
 Import ListNotations.
 Open Scope Q_scope.
 
@@ -21,6 +21,24 @@ Theorem C09_general_fit_unaffected : forall l p q,
   forall c', ssr l px p <= ssr l px c' /\ ssr l py q <= ssr l py c'.
 Proof. exact general_fit_unaffected. Qed.
 Print Assumptions C09_general_fit_unaffected.
+
+(* ... and at parameter level (via uniqueness of the optimum): the fit of the data without the zero-weight pairs
+   has the same matrix and shift as the fit of the full data, for the general and the similarity families *)
+Theorem C09_general_fit_params_unaffected : forall l p q p' q' a b c,
+  (forall z, In z l -> 0 <= pw z) ->
+  fit_general l = FitOk p q -> fit_general (filter nz l) = FitOk p' q' ->
+  In a l -> In b l -> In c l -> 0 < pw a -> 0 < pw b -> 0 < pw c -> noncollinear3 a b c ->
+  (qnth p' 0 == qnth p 0 /\ qnth p' 1 == qnth p 1 /\ qnth p' 2 == qnth p 2) /\
+  (qnth q' 0 == qnth q 0 /\ qnth q' 1 == qnth q 1 /\ qnth q' 2 == qnth q 2).
+Proof. exact general_fit_zero_weight_params. Qed.
+Print Assumptions C09_general_fit_params_unaffected.
+
+Theorem C09_similarity_fit_params_unaffected : forall l, 0 < sw l -> 0 < q2 l -> ~ detc l == 0 ->
+  let m' := model (filter nz l) in
+  sflip m' = sflip (model l) /\ sa m' == sa (model l) /\ sb_ m' == sb_ (model l) /\
+  s1 m' == s1 (model l) /\ s2 m' == s2 (model l).
+Proof. exact rscale_fit_zero_weight_params. Qed.
+Print Assumptions C09_similarity_fit_params_unaffected.
 
 Theorem C09_shift_fit_unaffected : forall l,
   fst (fit_shift l) == fst (fit_shift (filter nz l)) /\ snd (fit_shift l) == snd (fit_shift (filter nz l)).
